@@ -42,6 +42,17 @@ TraceAdd ==
             /\ net' = [net EXCEPT !.layers = Append(MarkFlatten(net.layers, r.kind), L0 @@ [params |-> r.params])]
        ELSE r.outcome = "panic" /\ net' = net
 
+\* a feedback block added through Network::feedback: accepted with the announced shapes of the block, or rejected
+TraceAddBlock ==
+  /\ IsEvent("AddBlock")
+  /\ LET P == PrevOut IN
+     IF BlockAccepted(r.items, P)
+       THEN LET B0 == NewBlock(r.items, P, r.loops, r.inskips, r.outskips, r.acc)
+                B  == [B0 EXCEPT !.inner = [k \in 1..Len(B0.inner) |-> B0.inner[k] @@ [params |-> r.params[k]]]]
+            IN /\ r.outcome = "ok" /\ r.in = B.in /\ r.out = B.out
+               /\ net' = [net EXCEPT !.layers = Append(net.layers, B)]
+       ELSE r.outcome = "panic" /\ net' = net
+
 TraceConnect ==
   /\ IsEvent("Connect")
   /\ IF \E p \in net.connect : p[1] = r.to
@@ -79,7 +90,7 @@ TraceBackward ==
             /\ B.grads[i].dw = r.grads[i].dw
             /\ net.layers[i].cfg.bias => B.grads[i].db = r.grads[i].db
 
-TraceNext == TraceNew \/ TraceAdd \/ TraceConnect \/ TraceLoopback \/ TraceSetAcc \/ TraceForward \/ TraceBackward
+TraceNext == TraceNew \/ TraceAdd \/ TraceAddBlock \/ TraceConnect \/ TraceLoopback \/ TraceSetAcc \/ TraceForward \/ TraceBackward
 TraceSpec == TraceInit /\ [][TraceNext]_tvars
 
 TraceAccepted ==
